@@ -134,3 +134,13 @@ Definition meta_from_bytes (cs : codec) (bs : list Z) : res meta :=
            | ty :: r' => data <- scan_length [] r' ;; meta_decode cs ty data
            end
   end.
+
+(* the accepted values that decode back to themselves: all of them except SMPTE hours above 31 (they spill into the
+   frame-rate bits) and UnknownMetaMessage objects carrying a known type byte or items that are not bytes *)
+Definition meta_rt_b (x : meta) : bool :=
+  meta_ok x &&
+  match x with
+  | MSmpte _ h _ _ _ _ => h <=? 31
+  | MUnknown tb d => negb (known_type tb) && in_rng 0 255 tb && forallb byte8 d
+  | _ => true
+  end.
